@@ -187,6 +187,18 @@ def run(rep, ctx):
             else:
                 rep.violation("R06.4", f"_find_wyckoff_ground_state: {k}", "candidate order is not (identity, table order) with the first of "
                               "equally ranked candidates chosen: the selected representation depends on incidental order", M.where(GS))
+    rep.rule("R06.5", "every memoised result of the analyzer is dropped by reset(), which set_system() calls (no answers for a previous structure)")
+    with rep.guard("R06.5"):
+        from .. import symrules as _SR
+        _SR.reset_covers_caches(rep, ctx.model, "R06.5")
+    rep.rule("R06.6", "every tabulated letter permutation is the bijection its normalizer induces (origin-shifted presentations get the same letters)")
+    TO.norm_perm(rep, T, "R06.6")
+    rep.rule("R06.7", "letters / orbits are read over the right index space (supercells with reordered atoms get the same letters)")
+    with rep.guard("R06.7"):
+        SR.index_spaces(rep, M, "R06.7")
+        SR.orbit_source(rep, M, "R06.7")
+    rep.floor("R06.6", 6000)
+    rep.floor("R06.7", 8)
     rep.floor("R06.1", 230)
     rep.floor("R06.2", 4)
     rep.floor("R06.3", 3)
